@@ -215,6 +215,20 @@ def run(ctx):
         edges = sorted(edges)
         ctx.case(("random", shape), {"n": n, "edges": edges}, nontrivial=_nontrivial(n, edges))
         judge(ctx, n, edges)
+    run_large(ctx)
+
+
+def run_large(ctx):
+    """'For every number of sound events': one long chain and one big cluster (a night of calls linked pairwise)."""
+    rng = ctx.rng
+    for shape, n in (("long_chain", 1500), ("big_cluster_plus_isolated", 700)) if ctx.shard == 0 else ():
+        if shape == "long_chain":
+            perm = list(range(n)); rng.shuffle(perm)
+            edges = sorted(tuple(sorted((perm[i], perm[i + 1]))) for i in range(n - 1))
+        else:
+            edges = [(a, b) for a in range(n - 3) for b in range(a + 1, n - 3)]
+        ctx.case(("large", shape), {"n": n, "edges": "generated:" + shape}, nontrivial=True)
+        _judge_once(ctx, n, edges)
 
 
 def replay(ctx, w):
